@@ -273,6 +273,10 @@ func workerMain() {
 		}
 		viols := cr.viol
 		race := rl.newReports()
+		if race != "" && !libraryRace(race) {
+			fmt.Fprintf(os.Stderr, "simharness: data race inside the harness itself (run %d), not a property violation:\n%s\n", run, clipN(race, 3000))
+			os.Exit(3)
+		}
 		if race != "" {
 			viols = append(viols, &Violation{Prop: *fProp, Class: "race", OpID: -1, Sig: "race:" + raceSig(race), Detail: race})
 		}
